@@ -35,14 +35,16 @@ Definition mk_writer (cfg : fscfg) (names : nat -> comp) (kind : wkind) (k : key
   | None => None
   | Some d =>
       Some {| w_env := {| we_base := f_base cfg; we_names := names; we_dest := Some d;
-                          we_kind := kind; we_empty_ok := q_empty_ok cfg |};
+                          we_kind := kind; we_empty_ok := q_empty_ok cfg;
+                          we_exist_fails := q_mkdir_exist_fails cfg |};
               w_key := k; w_chunks := chunks; w_pc := WCreate 0 chunks |}
   end.
 
 (* commit(""): the abort of a stream *)
 Definition mk_aborter (cfg : fscfg) (names : nat -> comp) (chunks : list bytes) : writer :=
   {| w_env := {| we_base := f_base cfg; we_names := names; we_dest := None;
-                 we_kind := WVec; we_empty_ok := q_empty_ok cfg |};
+                 we_kind := WVec; we_empty_ok := q_empty_ok cfg;
+                 we_exist_fails := q_mkdir_exist_fails cfg |};
      w_key := []; w_chunks := chunks; w_pc := WCreate 0 chunks |}.
 
 Inductive sev :=
